@@ -4,13 +4,19 @@ import (
 	"go/constant"
 	"go/token"
 	"go/types"
+	"strings"
+	"sync"
 
 	"golang.org/x/tools/go/ssa"
 )
 
 // Instrs calls f for every instruction of fn (not of its anonymous functions).
 func Instrs(fn *ssa.Function, f func(ssa.Instruction)) {
+	dead := DeadBlocks(fn)
 	for _, b := range fn.Blocks {
+		if dead[b] {
+			continue
+		}
 		for _, in := range b.Instrs {
 			f(in)
 		}
@@ -31,7 +37,7 @@ func WithAnon(fn *ssa.Function) []*ssa.Function {
 func StaticCallee(ci ssa.CallInstruction) *ssa.Function {
 	c := ci.Common()
 	if c.IsInvoke() {
-		return nil
+		return devirtualized(ci)
 	}
 	val := c.Value
 	for {
@@ -605,4 +611,133 @@ func FieldOfStruct(f *ssa.Field) *types.Var {
 		return st.Field(f.Field)
 	}
 	return nil
+}
+
+var deadBlocksCache sync.Map // *ssa.Function -> map[*ssa.BasicBlock]bool
+
+// DeadBlocks: the blocks of fn no execution reaches because every way into them passes a branch on a comparison of two
+// constants that goes the other way (go/ssa does not fold those; they appear when a helper taking a mode constant is
+// inlined into a caller that passes one). Nil when there is none.
+func DeadBlocks(fn *ssa.Function) map[*ssa.BasicBlock]bool {
+	if fn == nil || len(fn.Blocks) == 0 {
+		return nil
+	}
+	if v, ok := deadBlocksCache.Load(fn); ok {
+		return v.(map[*ssa.BasicBlock]bool)
+	}
+	folded := false
+	live := map[*ssa.BasicBlock]bool{}
+	var visit func(b *ssa.BasicBlock)
+	visit = func(b *ssa.BasicBlock) {
+		if live[b] {
+			return
+		}
+		live[b] = true
+		if len(b.Instrs) > 0 {
+			if br, ok := b.Instrs[len(b.Instrs)-1].(*ssa.If); ok && len(b.Succs) == 2 {
+				if val, known := constCond(br.Cond); known {
+					folded = true
+					if val {
+						visit(b.Succs[0])
+					} else {
+						visit(b.Succs[1])
+					}
+					return
+				}
+			}
+		}
+		for _, s := range b.Succs {
+			visit(s)
+		}
+	}
+	visit(fn.Blocks[0])
+	if fn.Recover != nil {
+		visit(fn.Recover)
+	}
+	var dead map[*ssa.BasicBlock]bool
+	if folded {
+		for _, b := range fn.Blocks {
+			if !live[b] {
+				if dead == nil {
+					dead = map[*ssa.BasicBlock]bool{}
+				}
+				dead[b] = true
+			}
+		}
+	}
+	deadBlocksCache.Store(fn, dead)
+	return dead
+}
+
+func constCond(v ssa.Value) (val, known bool) {
+	switch x := v.(type) {
+	case *ssa.Const:
+		if x.Value != nil && x.Value.Kind() == constant.Bool {
+			return constant.BoolVal(x.Value), true
+		}
+	case *ssa.BinOp:
+		a, ok1 := x.X.(*ssa.Const)
+		b, ok2 := x.Y.(*ssa.Const)
+		if !ok1 || !ok2 || a.Value == nil || b.Value == nil {
+			return false, false
+		}
+		switch x.Op {
+		case token.EQL, token.NEQ, token.LSS, token.LEQ, token.GTR, token.GEQ:
+			if a.Value.Kind() != b.Value.Kind() || a.Value.Kind() == constant.Unknown {
+				return false, false
+			}
+			return constant.Compare(a.Value, x.Op, b.Value), true
+		}
+	}
+	return false, false
+}
+
+// devirtualized: an interface call whose receiver is, on every path, a value of one concrete type of this module boxed in
+// the same function (`var target pausable = topic; target.Pause()` – what is left when a helper taking the interface is
+// inlined into a caller that passes a concrete value) calls that type's method.
+func devirtualized(ci ssa.CallInstruction) *ssa.Function {
+	c := ci.Common()
+	var concrete types.Type
+	ok := true
+	seen := map[ssa.Value]bool{}
+	var walk func(v ssa.Value)
+	walk = func(v ssa.Value) {
+		if seen[v] || !ok {
+			return
+		}
+		seen[v] = true
+		switch x := v.(type) {
+		case *ssa.Phi:
+			for _, e := range x.Edges {
+				walk(e)
+			}
+		case *ssa.ChangeInterface:
+			walk(x.X)
+		case *ssa.MakeInterface:
+			t := x.X.Type()
+			if concrete != nil && !types.Identical(concrete, t) {
+				ok = false
+				return
+			}
+			concrete = t
+		default:
+			ok = false
+		}
+	}
+	walk(c.Value)
+	if !ok || concrete == nil || ci.Parent() == nil {
+		return nil
+	}
+	nt, _ := concrete.(*types.Named)
+	if pt, isPtr := concrete.(*types.Pointer); isPtr {
+		nt, _ = pt.Elem().(*types.Named)
+	}
+	if nt == nil || nt.Obj().Pkg() == nil || !strings.HasPrefix(nt.Obj().Pkg().Path(), ModPath) {
+		return nil
+	}
+	sel := ci.Parent().Prog.MethodSets.MethodSet(concrete).Lookup(c.Method.Pkg(), c.Method.Name())
+	if sel == nil {
+		return nil
+	}
+	return ci.Parent().Prog.MethodValue(sel)
 }
